@@ -780,7 +780,10 @@ func (cs *ContractSet) LoadContractFile(path, pkgPath string) error {
 		case "modifies":
 			cur.HasMod = true
 			for _, m := range strings.Split(rest, ",") {
-				cur.Modifies = append(cur.Modifies, strings.TrimSpace(m))
+				m = strings.TrimSpace(m)
+				if !contains(cur.Modifies, m) { // merged blocks may repeat an item
+					cur.Modifies = append(cur.Modifies, m)
+				}
 			}
 		case "trusted":
 			cur.Trusted = true
